@@ -560,6 +560,137 @@ func (L *Loader) sameSignature(cc *ssa.CallCommon) []*ssa.Function {
 	return out
 }
 
+// eventAddrRule: structural rule for "no event carries another connection's address" (C03). In a handler
+// Handle(ctx, conn) and the closures it makes, every event option built by event.SourceAddr / RemoteAddr
+// takes its argument from conn.RemoteAddr() and every event.DestinationAddr from conn.LocalAddr(), where
+// conn is the handler's own connection parameter (directly, through its captured cell, or converted to a
+// string by the address's String method).
+func (L *Loader) eventAddrRule(fn *ssa.Function) (obls []*Obligation) {
+	short := L.funcKeyShort(fn)
+	var conn *ssa.Parameter
+	for _, p := range fn.Params {
+		if p.Type().String() == "net.Conn" {
+			conn = p
+		}
+	}
+	if conn == nil {
+		return nil
+	}
+	type scope struct {
+		vals  map[ssa.Value]bool // values that are the connection
+		cells map[ssa.Value]bool // addresses of cells that hold the connection
+	}
+	var bad []string
+	n := 0
+	seen := map[*ssa.Function]bool{}
+	var visit func(f *ssa.Function, sc scope)
+	visit = func(f *ssa.Function, sc scope) {
+		if seen[f] {
+			return
+		}
+		seen[f] = true
+		// cells of this function that hold the connection: an Alloc into which only the connection is stored
+		for _, b := range f.Blocks {
+			for _, in := range b.Instrs {
+				if st, ok := in.(*ssa.Store); ok && sc.vals[st.Val] {
+					if al, ok := st.Addr.(*ssa.Alloc); ok {
+						sc.cells[al] = true
+					}
+				}
+			}
+		}
+		for _, b := range f.Blocks {
+			for _, in := range b.Instrs {
+				if st, ok := in.(*ssa.Store); ok && sc.cells[st.Addr] && !sc.vals[st.Val] {
+					delete(sc.cells, st.Addr) // reassigned: no longer known to be the connection
+				}
+			}
+		}
+		isConn := func(v ssa.Value) bool {
+			if sc.vals[v] {
+				return true
+			}
+			if u, ok := v.(*ssa.UnOp); ok && u.Op == token.MUL && sc.cells[u.X] {
+				return true
+			}
+			if ci, ok := v.(*ssa.ChangeInterface); ok {
+				return sc.vals[ci.X]
+			}
+			return false
+		}
+		// addrOf: v is conn.<method>() possibly followed by .String()
+		var addrOf func(v ssa.Value, method string, depth int) bool
+		addrOf = func(v ssa.Value, method string, depth int) bool {
+			c, ok := v.(*ssa.Call)
+			if !ok || depth > 2 {
+				return false
+			}
+			if c.Call.IsInvoke() && c.Call.Method.Name() == method && isConn(c.Call.Value) {
+				return true
+			}
+			if c.Call.IsInvoke() && c.Call.Method.Name() == "String" {
+				return addrOf(c.Call.Value, method, depth+1)
+			}
+			return false
+		}
+		for _, b := range f.Blocks {
+			for _, in := range b.Instrs {
+				switch x := in.(type) {
+				case *ssa.MakeClosure:
+					cl, ok := x.Fn.(*ssa.Function)
+					if !ok {
+						continue
+					}
+					inner := scope{vals: map[ssa.Value]bool{}, cells: map[ssa.Value]bool{}}
+					for i, bnd := range x.Bindings {
+						if i >= len(cl.FreeVars) {
+							break
+						}
+						if sc.cells[bnd] {
+							inner.cells[cl.FreeVars[i]] = true
+						} else if isConn(bnd) {
+							inner.vals[cl.FreeVars[i]] = true
+						}
+					}
+					visit(cl, inner)
+				case *ssa.Call:
+					callee := x.Call.StaticCallee()
+					if callee == nil || callee.Pkg == nil || callee.Pkg.Pkg.Path() != modulePath+"/event" || len(x.Call.Args) != 1 {
+						continue
+					}
+					want := ""
+					switch callee.Name() {
+					case "SourceAddr", "RemoteAddr":
+						want = "RemoteAddr"
+					case "DestinationAddr":
+						want = "LocalAddr"
+					default:
+						continue
+					}
+					n++
+					if !addrOf(x.Call.Args[0], want, 0) {
+						pos := L.fset.Position(x.Pos())
+						bad = append(bad, fmt.Sprintf("%s:%d event.%s", strings.TrimPrefix(pos.Filename, L.repoDir+"/"), pos.Line, callee.Name()))
+					}
+				}
+			}
+		}
+	}
+	visit(fn, scope{vals: map[ssa.Value]bool{conn: true}, cells: map[ssa.Value]bool{}})
+	if n == 0 {
+		return nil
+	}
+	if len(bad) == 0 {
+		return []*Obligation{{ID: short + "/event-address/own-connection#1", Kind: "confine", Func: short, Pos: L.posOfFn(fn),
+			Desc: fmt.Sprintf("all %d address options of the events built here are taken from the handler's own connection", n), Prefix: 1, Goal: "true", Script: []string{"(set-logic ALL)"}}}
+	}
+	for i, b := range bad {
+		obls = append(obls, &Obligation{ID: fmt.Sprintf("%s/event-address/other-source#%d", short, i+1), Kind: "confine", Func: short, Pos: strings.SplitN(b, " ", 2)[0],
+			Desc: "the address of an event is not taken from the handler's own connection (" + b + ")", Prefix: 1, Goal: "false", Script: []string{"(set-logic ALL)"}})
+	}
+	return
+}
+
 func (L *Loader) posOfFn(fn *ssa.Function) string {
 	pos := L.fset.Position(fn.Pos())
 	return fmt.Sprintf("%s:%d", strings.TrimPrefix(pos.Filename, L.repoDir+"/"), pos.Line)
